@@ -143,6 +143,7 @@ def l2_campaign(res, pid, ntraces, length, profile, project=None, traces=None, o
     oracle_fail = []
     verbs = collections.Counter()
     codes = collections.Counter()
+    suspects = []
     for t in traces:
         si = impl.get(t.id)
         if si:
@@ -157,11 +158,24 @@ def l2_campaign(res, pid, ntraces, length, profile, project=None, traces=None, o
             if e[0] == "L" and isinstance(e[2], str):
                 verbs[(e[2].split(" ") or [""])[0].upper()[:12]] += 1
         d = compare_trace(t, si, model.get(t.id), project=project)
-        if d:
-            mism.append((t, d))
-        if oracle and si:
-            for desc, rp in oracle(t, si):
-                oracle_fail.append((t, desc, rp))
+        of = oracle(t, si) if (oracle and si) else []
+        if d or of:
+            suspects.append(t)
+    retried = 0
+    if suspects:
+        # a disagreement is believed only if it shows again when the same history is run once more
+        # (the harness is timing-sensitive at a rate of about one step in a million)
+        impl2, model2 = run_traces(suspects, tag=pid + "-retry")
+        retried = len(suspects)
+        for t in suspects:
+            si = impl2.get(t.id)
+            d = compare_trace(t, si, model2.get(t.id), project=project)
+            if d:
+                mism.append((t, d))
+            if oracle and si:
+                for desc, rp in oracle(t, si):
+                    oracle_fail.append((t, desc, rp))
+            impl[t.id], model[t.id] = si, model2.get(t.id)
     for t, desc, rp in oracle_fail[:3]:
         r = {"kind": "trace", "trace": t.describe(), "failure": desc}
         r.update(rp or {})
@@ -172,7 +186,7 @@ def l2_campaign(res, pid, ntraces, length, profile, project=None, traces=None, o
             len(mism), len(traces), d["k"], t.id, d["what"]),
             {"kind": "trace", "trace": t.describe(), "diff": d, "trace_file": t.render()}, found=False)
     return {"traces": len(traces), "steps": steps, "mismatches": len(mism),
-            "summary": {"traces": len(traces), "steps": steps, "mismatching_traces": len(mism),
+            "summary": {"traces": len(traces), "steps": steps, "mismatching_traces": len(mism), "suspects_rerun": retried,
                         "verbs": dict(verbs.most_common(40)), "reply_codes": dict(codes.most_common(60))},
             "impl": impl, "model": model, "trace_objs": traces}
 
@@ -2300,3 +2314,123 @@ def check_C19(res):
         "traces_validated_against_impl": r["traces"],
         "samples": [slots[0].describe()["events"][:14]],
         "l2": r["summary"]})
+
+
+# ====================================================================== C12
+QUERIES = ["LIST", "LIST #sec", "LIST #sec,#pub", "NAMES", "NAMES #pub", "NAMES #sec,#pub", "WHO #sec", "WHO #pub", "WHO *", "WHO ghost", "WHO gh*", "WHO *o*",
+           "WHO *!*@127.*", "WHO Real*", "WHO ?????", "WHOIS ghost", "WHOIS gh*", "WHOIS *", "WHOIS ghost,alice", "WHOIS member", "WHOIS member,ghost,*e*", "WHO member",
+           "WHO *webchat*", "PRIVMSG #sec :psst", "NOTICE #sec :psst", "LUSERS_SKIP"]
+
+
+def c12_pairs(res):
+    """pairs of histories that differ only in the hidden part; outsiders ask the same queries in both"""
+    pairs = []
+    k = 0
+    for secret_flags in ("s", "sn", "si", "sm"):
+        for ghost_mode in ("plain", "invisible"):
+            for sharing in (False, True):
+                for topic in (None, "secret topic"):
+                    k += 1
+                    if res.tier == "quick" and k % 2 == res.seed % 2:
+                        continue
+                    def build(hidden_present, tid):
+                        cfg = Config(operators=[dict(name="admin", password="operpass")])
+                        t = Trace(tid, cfg)
+                        t.register(0, "alice", "webchat")
+                        t.register(1, "member", "m")
+                        t.register(2, "outsider", "webchat")
+                        t.register(3, "outsider2", "o2")
+                        t.line(3, "MODE outsider2 +i")
+                        t.line(0, "JOIN #pub")
+                        t.line(1, "JOIN #pub")
+                        t.line(2, "JOIN #pub")
+                        if hidden_present:
+                            t.register(4, "ghost", "webchat", real="Real Ghost")
+                            if ghost_mode == "invisible":
+                                t.line(4, "MODE ghost +i")
+                            t.line(4, "JOIN #sec")
+                            t.line(4, "MODE #sec +" + secret_flags)
+                            if topic:
+                                t.line(4, "TOPIC #sec :" + topic)
+                            if sharing:
+                                t.line(4, "INVITE member #sec")
+                                t.line(1, "JOIN #sec")
+                                t.line(4, "MODE #sec +v member")
+                        qs = []
+                        for q in QUERIES:
+                            if q == "LUSERS_SKIP":
+                                continue
+                            for cid in (2, 3):
+                                qs.append(len(t.events))
+                                t.line(cid, q)
+                        t.meta = {"flags": secret_flags, "ghost": ghost_mode, "sharing": sharing, "topic": topic, "hidden": hidden_present, "queries": qs}
+                        return t
+                    pairs.append((build(True, "c12-%d-B" % k), build(False, "c12-%d-A" % k)))
+    return pairs
+
+
+def check_C12(res):
+    pairs = c12_pairs(res)
+    traces = [t for p in pairs for t in p]
+    n = 60 if res.tier == "quick" else 1000
+    prof = {"weights": dict(LIST=8, NAMES=10, WHO=14, WHOIS=12, JOIN=10, MODE=10, UMODE=8, PRIVMSG=4, PART=2, NICK=2), "max_conns": 6, "initial_conns": 4,
+            "p_channels": 1.0}
+    r = l2_campaign(res, "C12", n, 45, prof, traces=traces, oracle=lambda t, st: views_oracle(t, st))
+    impl = r["impl"]
+    known = load_known("C12")
+    differing = 0
+    compared = 0
+    for tb, ta in pairs:
+        sb, sa = impl.get(tb.id), impl.get(ta.id)
+        if not sb or not sa:
+            continue
+        if tb.meta["ghost"] != "invisible":
+            # a visible user may of course be seen; only the secret channel must stay hidden
+            hide_user = False
+        else:
+            hide_user = True
+        byk_b = {s["k"]: s for s in sb}
+        byk_a = {s["k"]: s for s in sa}
+        for kb, ka in zip(tb.meta["queries"], ta.meta["queries"]):
+            q = tb.events[kb][2]
+            cid = tb.events[kb][1]
+            if not hide_user and not tb.meta["sharing"] and re.search(r"ghost|gh\*|\*o\*|\*$|Real|\?\?\?\?\?|webchat|127", q):
+                continue   # the query may legitimately show the (visible) user
+            if not hide_user:
+                # only channel-hiding queries are comparable when the user itself is visible
+                if not re.match(r"^(LIST|NAMES|WHO #|PRIVMSG|NOTICE)", q):
+                    continue
+            ob = irc.canon_lines((byk_b[kb].get("out") or {}).get(str(cid), []), tb.cfg.name)
+            oa = irc.canon_lines((byk_a[ka].get("out") or {}).get(str(cid), []), ta.cfg.name)
+            others_b = {c: l for c, l in (byk_b[kb].get("out") or {}).items() if c != str(cid) and l}
+            compared += 1
+            if q.startswith(("PRIVMSG", "NOTICE")):
+                if others_b:
+                    res.violation("an outsider spoke into the secret channel: %r reached %r" % (q, others_b), {"kind": "trace", "trace": tb.describe(), "step": kb}, found=True)
+                continue
+            # LUSERS-like counters are not in the statement; user counts inside 322 belong to public channels only
+            if ob != oa:
+                sig = None
+                extra = [l for l in oa if l not in ob]
+                missing = [l for l in ob if l not in oa]
+                if q.startswith("NAMES ") and "#sec" in q and not missing and all(" 366 " in l and " #sec " in l for l in extra):
+                    sig = "names-explicit-secret-silence"
+                if sig and any(f.get("signature") == sig for f in known):
+                    if sig not in [k2.split(" ")[0] for k2 in res.known]:
+                        res.known.append("%s NAMES naming a secret channel the asker is not on is answered with silence, an absent channel with 366 (query %r)" % (sig, q))
+                    continue
+                differing += 1
+                if differing <= 3:
+                    res.violation("outsider query %r is answered differently when the hidden part exists: with %r / without %r" % (q, ob, oa),
+                                  {"kind": "trace-pair", "with_hidden": tb.describe(), "without_hidden": ta.describe(), "query": q, "step": kb,
+                                   "trace_file": tb.render()}, found=True)
+    res.coverage.update({
+        "evaluations": r["steps"], "distinct_nontrivial": compared,
+        "rule": "two-world runs ON THE IMPLEMENTATION: %d pairs of histories (secret channel flags {s,sn,si,sm} x hidden user {visible,+i} x a bystander shares the secret channel or not x topic) that differ only "
+                "in the hidden part; in both worlds two outsiders (one itself +i, one with the same user name as the hidden user) ask %d query forms of LIST/NAMES/WHO/WHOIS (explicit names, comma lists, wildcard "
+                "masks over nick, source and real name, no argument) and try to speak into the channel; the canonicalised answers must be equal; plus %d seeded random histories compared impl vs model with "
+                "the view oracle; distinct_nontrivial = query answers compared between the two worlds" % (len(pairs), len(QUERIES) - 1, n),
+        "traces_validated_against_impl": r["traces"],
+        "samples": [pairs[0][0].describe()["events"][18:30]],
+        "l2": r["summary"]})
+    res.assumptions = ["403 vs 404/442 on PRIVMSG/MODE/TOPIC and LUSERS' channel count do reveal existence; the property restricts itself to LIST/NAMES/WHO/WHOIS and speaking"]
